@@ -25,6 +25,7 @@ from .procs import HarnessError
 from .shrink import shrink_plan
 
 VERIF = os.path.dirname(os.path.dirname(os.path.abspath(__file__)))
+OUT = os.environ.get("BBSIM_OUT_DIR", VERIF)      # evidence/ and replays/ go here
 MODULES = {"C12": "bbsim.c12", "C13": "bbsim.c13", "C07": "bbsim.c07"}
 MAX_SHRINK_PER_WORKER = 2
 SHRINK_BUDGET_S = float(os.environ.get("BBSIM_SHRINK_BUDGET_S", "45"))
@@ -161,7 +162,7 @@ def trim_plan(plan, limit=6000):
 
 
 def write_replay(prop, seed, idx, plan, violation, original):
-    d = os.path.join(VERIF, "replays")
+    d = os.path.join(OUT, "replays")
     os.makedirs(d, exist_ok=True)
     path = os.path.join(d, "%s-%d-%d.json" % (prop, seed, idx))
     doc = {"property": prop, "seed": seed, "idx": idx,
@@ -353,8 +354,8 @@ def batch(prop, tier, seed, workers, nruns, budget_s=None):
         "wall_s": round(wall, 2),
         "violations": len(confirmed) + len(unconfirmed_rest),
     }
-    os.makedirs(os.path.join(VERIF, "evidence"), exist_ok=True)
-    with open(os.path.join(VERIF, "evidence", prop + ".json"), "w") as f:
+    os.makedirs(os.path.join(OUT, "evidence"), exist_ok=True)
+    with open(os.path.join(OUT, "evidence", prop + ".json"), "w") as f:
         json.dump(ev, f, indent=1)
     print("%s tier=%s seed=%d runs=%d distinct_nontrivial=%d wall=%.1fs log=%s" %
           (prop, tier, seed, len(runs), nontrivial, wall, log_digest))
